@@ -2,6 +2,7 @@ package props
 
 import (
 	"bytes"
+	"strings"
 	"fmt"
 	"math/big"
 
@@ -12,6 +13,12 @@ import (
 
 // C08 — the filled part of a bar is proportional to progress and monotone.
 
+// multi-rune grapheme clusters that occupy two columns: thumbs-up + skin tone,
+// and a keycap-free flag pair would be ambiguous in width tables, so a second
+// emoji + modifier is used
+const c08ClusterFill = "\U0001F44D\U0001F3FD"
+const c08ClusterRefill = "\U0001F44B\U0001F3FB"
+
 type c08Case struct {
 	Total     int64 `json:"total"`
 	Current   int64 `json:"current"`
@@ -20,6 +27,7 @@ type c08Case struct {
 	Width     int   `json:"width"`     // available width handed to Fill
 	Requested int   `json:"requested"` // requested width (0 = none)
 	Wide      bool  `json:"wide"`      // 2-column filler/refiller runes
+	Cluster   bool  `json:"cluster"`   // with Wide: each is a multi-rune grapheme cluster (emoji + modifier), still 2 columns
 	Rev       bool  `json:"rev"`
 	Completed bool  `json:"completed"` // Statistics.Completed flag (only generated true when current>=total>0)
 	TipOnC    bool  `json:"tip_on_complete"`
@@ -91,6 +99,7 @@ func genC08(t *rapid.T) interface{} {
 		c.Refill = rapid.Int64Range(0, c.Current).Draw(t, "refill")
 	}
 	c.Wide = rapid.IntRange(0, 3).Draw(t, "wide") == 0
+	c.Cluster = c.Wide && rapid.IntRange(0, 2).Draw(t, "cluster") == 0
 	c.Rev = rapid.IntRange(0, 3).Draw(t, "rev") == 0
 	if c.Total > 0 && c.Current >= c.Total {
 		c.Completed = rapid.Bool().Draw(t, "completed")
@@ -120,7 +129,9 @@ type c08Cells struct {
 
 func c08Fill(c *c08Case, current int64, completed bool) (c08Cells, error) {
 	st := mpb.BarStyle().Lbound("[").Rbound("]").Tip(">").Padding("-")
-	if c.Wide {
+	if c.Wide && c.Cluster {
+		st = st.Filler(c08ClusterFill).Refiller(c08ClusterRefill)
+	} else if c.Wide {
 		st = st.Filler("世").Refiller("界")
 	} else {
 		st = st.Filler("=").Refiller("+")
@@ -157,6 +168,9 @@ func c08Fill(c *c08Case, current int64, completed bool) (c08Cells, error) {
 	} else if s != "" {
 		return cells, fmt.Errorf("row %q lacks brackets", cells.raw)
 	}
+	// grapheme clusters of the cluster style count as one 2-column cell pair
+	s = strings.ReplaceAll(s, c08ClusterFill, "世")
+	s = strings.ReplaceAll(s, c08ClusterRefill, "界")
 	for _, r := range s {
 		switch r {
 		case '=':
@@ -274,6 +288,9 @@ func runC08(ci interface{}) Result {
 	}
 	if c.Wide {
 		r.Classes = append(r.Classes, "wide")
+	}
+	if c.Cluster {
+		r.Classes = append(r.Classes, "cluster")
 	}
 	if c.Refill > 0 {
 		r.Classes = append(r.Classes, "refill")
